@@ -157,4 +157,23 @@ theorem lfsr_eq_polyRem (mul : Nat → Nat → Nat) (poly : List Nat) (hpos : 0 
   rw [List.length_reverse] at h
   rw [← h, xorPrefix_by_zeros]
 
+theorem polyRem_length (mul : Nat → Nat → Nat) (gs : List Nat) : ∀ (k : Nat) (xs : List Nat), k ≤ xs.length →
+    (polyRem mul gs k xs).length = xs.length - k := by
+  intro k
+  induction k with
+  | zero => intro xs _; simp [polyRem]
+  | succ k ih =>
+    intro xs h
+    cases xs with
+    | nil => simp at h
+    | cons c xs =>
+      simp only [polyRem]
+      rw [ih _ (by rw [xorPrefix_length]; simpa using h), xorPrefix_length]
+      simp
+
+theorem eccBlock_length (n : Nat) (data : List Nat) : (eccBlock n data).length = n := by
+  unfold eccBlock
+  rw [polyRem_length _ _ _ _ (by simp)]
+  simp
+
 end Gzx.DMProofs
